@@ -510,6 +510,19 @@ def call_grid(ver):
         for n in range(lo, min(hi, 2) + 1):
             for args in itertools.product(pool, repeat=n):
                 yield f'{name}({", ".join(args)})'
+        if ver >= '3.0':
+            # dynamic calls and arrow calls take another path to the function body (XPathFunction.__call__)
+            dyn = ["abs#1", "()", "(1, 2)", "'a'", ".", "xs:untypedAtomic('x')", "@a", "1.5"] + \
+                (["map{'a':1}", "[1, 'b']"] if ver >= '3.1' else [])
+            if lo <= 1 <= hi:
+                for a in dyn:
+                    yield f'{name}#1({a})'
+                    if ver >= '3.1':
+                        yield f'{a} => {name}()'
+            if lo <= 2 <= hi and ver >= '3.1':
+                for a in dyn:
+                    for b in ("1", "'a'", "()", "abs#1"):
+                        yield f'{a} => {name}({b})'
         if lo <= 3 <= hi and ver != '1.0':
             small = ["()", "1", "'a'", ".", "xs:untypedAtomic('x')", "(1, 2)"] + (["abs#1"] if ver >= '3.0' else []) + \
                 (["map{'a':1}"] if ver >= '3.1' else [])
@@ -670,11 +683,11 @@ def jobs(tier, seed):
         add('random', 2, 700, batch=8)
         add('reuse', 2, 450)
     else:
-        add('grammar', 3, 7000, depth=4, batch=8)
-        add('calls', 4, 8000, batch=8)
-        add('mutated', 4, 9000, depth=3, batch=8)
-        add('random', 2, 9000, batch=8)
-        add('reuse', 2, 6000)
+        add('grammar', 3, 5000, depth=4, batch=8)
+        add('calls', 4, 6000, batch=8)
+        add('mutated', 4, 6500, depth=3, batch=8)
+        add('random', 2, 6000, batch=8)
+        add('reuse', 2, 4500)
         for i in range(1):
             out.append({'check': 'atheris', 'shard': i, 'runs': 300000, 'seed': derive_seed(seed, 'C03', 'atheris', i) % (2 ** 31)})
     return out
